@@ -85,7 +85,7 @@ Proof.
   cbn [app] in Hp. unfold get_node at 2 in Hm. unfold get_node at 2 in Hu.
   cbn [alookup new_ninfo n_metric n_ut] in Hm, Hu.
   unfold set_metric. rewrite get_node_aset. cbn [n_pods n_metric n_ut n_sums].
-  rewrite alookup_aset, Z.eqb_refl, Hp, Hu. unfold fresh_ut.
+  rewrite alookup_aset, Z.eqb_refl, Hp.
   repeat split; reflexivity.
 Qed.
 
@@ -93,18 +93,14 @@ Qed.
 Lemma fresh_cache_equal cfg ops node n m :
   node <> 0 ->
   alookup node (run cfg ops) = Some n -> n_metric n = Some m ->
-  (is_some (m_ut m) = true \/ n_ut n = zero_time) ->
   forall feed, (feed = feed_metric_first \/ feed = feed_pods_first) ->
   exists n', alookup node (run cfg (feed node m (n_pods n))) = Some n'
     /\ n_pods n' = n_pods n /\ n_metric n' = Some m /\ n_sums n' = n_sums n
     /\ (forall prod t d, get_est n' prod t d = get_est n prod t d).
 Proof.
-  intros Hnode Hn Hm Hut feed Hfeed.
+  intros Hnode Hn Hm feed Hfeed.
   destruct (run_ok cfg ops _ _ Hn) as (Hnd & Hcan & Hs).
-  destruct (Hs m Hm) as [Hsum Hu].
-  assert (Hfu : n_ut n = fresh_ut m).
-  { unfold fresh_ut. destruct (m_ut m) as [t|] eqn:Et; [now apply Hu|].
-    destruct Hut as [Hut|Hut]; [discriminate|exact Hut]. }
+  destruct (Hs m Hm) as [Hsum Hfu].
   assert (Hfed : let n' := get_node (run cfg (feed node m (n_pods n))) node in
      alookup node (run cfg (feed node m (n_pods n))) = Some n'
      /\ n_pods n' = n_pods n /\ n_metric n' = Some m /\ n_ut n' = fresh_ut m
